@@ -19,17 +19,17 @@ def nontrivial(run, m):
 
 
 def jobs(tier, seed):
-    js = batches("conduct", scale(tier, 200, 4000), scale(tier, 20, 100), gen="mix", p_loop=0.25, gseed=seed,
+    js = batches("conduct", scale(tier, 160, 4000), scale(tier, 10, 100), gen="mix", p_loop=0.25, gseed=seed,
                  P=dict(p_intjoin=0.3), scheds=2, ctl=dict(req=0.07, crash=0.04, early_render=0.3, max_req=4), name="random-ctl")
     js += batches("conduct", scale(tier, 100, 2000), scale(tier, 20, 100), gen="mix", gseed=seed + 5, P=dict(p_intjoin=0.3),
                   scheds=2, name="free")
     js += batches("conduct", scale(tier, 100, 2000), scale(tier, 20, 100), gen="mix", gseed=seed + 6, P=dict(p_intjoin=0.3), scheds=2,
                   ack_chain="lazy", ctl=dict(req=0.15, max_req=4, reqs=["pausing", "paused", "resuming", "running", "canceling"]),
                   name="lazy-start-with-requests")
-    js += batches("ctl_sweep", scale(tier, 40, 600), scale(tier, 4, 20), gen="mix", p_loop=0.2, gseed=seed + 9,
+    js += batches("ctl_sweep", scale(tier, 24, 600), scale(tier, 2, 20), gen="mix", p_loop=0.2, gseed=seed + 9,
                   P=dict(p_intjoin=0.3, nmax=6), modes=["pause", "cancel"], name="sweep")
     # fail commands with clean-up siblings under pause / cancel at every position
-    js += batches("ctl_sweep", scale(tier, 40, 600), scale(tier, 4, 20), gen="dag", gseed=seed + 10, p_fail=0.35,
+    js += batches("ctl_sweep", scale(tier, 28, 600), scale(tier, 2, 20), gen="dag", gseed=seed + 10, p_fail=0.35,
                   P=dict(p_fail_cmd=0.45, nmax=5, p_items=0.05, p_retry=0.05), modes=["cancel", "pause"], name="sweep-fail-commands")
     # the repository's own fixture definitions under generated outcomes, schedules and requests
     js += [dict(fn="corpus", parts=4, part=i, runs=scale(tier, 4, 40), gseed=seed, ctl=dict(req=0.08, max_req=3, crash=0.04, early_render=0.3), name="corpus") for i in range(4)]
